@@ -324,7 +324,31 @@ func (c *Ctx) hashPreimage() {
 				cx *vctx
 			}
 			var cands []vc
-			if ph, ok := lv.(*ssa.Phi); ok {
+			// i + shift with the shift chosen once, before the loop over the levels: 0 or 1
+			if bo, ok := lv.(*ssa.BinOp); ok && bo.Op == token.ADD {
+				for _, pr := range [][2]ssa.Value{{bo.X, bo.Y}, {bo.Y, bo.X}} {
+					x, _ := resolveDeep(pr[0], nil)
+					sh, isPhi := pr[1].(*ssa.Phi)
+					if x != ssa.Value(lvl) || !isPhi {
+						continue
+					}
+					ks := map[int64]bool{}
+					allK := true
+					for _, e := range sh.Edges {
+						if k, ok := constInt(e); ok {
+							ks[k] = true
+						} else {
+							allK = false
+						}
+					}
+					if allK && len(ks) == 2 && ks[0] && ks[1] {
+						plain, shifted = true, true
+					}
+				}
+			}
+			if plain && shifted {
+				// decided
+			} else if ph, ok := lv.(*ssa.Phi); ok {
 				for _, e := range ph.Edges {
 					cands = append(cands, vc{e, nil})
 				}
